@@ -343,5 +343,10 @@ func unmarshalDynamic(dec *msgpack.Decoder, path cty.Path) (cty.Value, error) {
 		return cty.DynamicVal, path.NewError(err)
 	}
 
+	// The type descriptor is data, so it can carry optional attribute
+	// annotations. Those are meaningful only in conversion targets and must
+	// never be part of the type of a value.
+	ty = ty.WithoutOptionalAttributesDeep()
+
 	return unmarshal(dec, ty, path)
 }
